@@ -643,8 +643,8 @@ class LocalConcurrences:
                 else:
                     miny, maxy = 0, wp.shape[1]
                     minx, maxx = 0, wp.shape[0]
-                    wp[path[0][0]+1:path[-1][0]+2, miny:maxy] = -wp[path[0][0]+1:path[-1][0]+2, miny:maxy]  # ma.masked
-                    wp[minx:maxx, path[0][1]+1:path[-1][1]+2] = -wp[minx:maxx, path[0][1]+1:path[-1][1]+2]  # ma.masked
+                    wp[path[0][0]+1:path[-1][0]+2, miny:maxy] = -abs(wp[path[0][0]+1:path[-1][0]+2, miny:maxy])  # ma.masked
+                    wp[minx:maxx, path[0][1]+1:path[-1][1]+2] = -abs(wp[minx:maxx, path[0][1]+1:path[-1][1]+2])  # ma.masked
             elif buffer > 0 and lcm is not None:
                 miny, maxy = 0, wp.shape[1] - 1
                 minx, maxx = 0, wp.shape[0] - 1
@@ -654,10 +654,10 @@ class LocalConcurrences:
                     for (x, y) in path:
                         xx = x + 1
                         for yy in range(max(miny, y + 1 - buffer), min(maxy, y + 1 + buffer)):
-                            wp[xx, yy] = -wp[xx, yy]  # ma.masked
+                            wp[xx, yy] = -abs(wp[xx, yy])  # ma.masked
                         yy = y + 1
                         for xx in range(max(minx, x + 1 - buffer), min(maxx, x + 1 + buffer)):
-                            wp[xx, yy] = -wp[xx, yy]  # ma.masked
+                            wp[xx, yy] = -abs(wp[xx, yy])  # ma.masked
             if lcm is not None:
                 ki += 1
                 yield lcm
